@@ -11,14 +11,14 @@ distinct names, values `nan`, `±inf`, any rational), every point-in-polygon fun
 every random source `choice`, and every finite history of operations
 {set/change a min or max key, remove a key, create/modify a polygon (axes, points, inverted),
 add/remove a polygon filter, toggle invalid removal, toggle enable, set/clear the limit, edit
-the manual array, reset, apply (with or without `force`)} in which every `apply` happens at
-settings `Filter.update` accepts (`ValidHist`: no feature with only one of min/max set, polygon
-axes present in the dataset; otherwise the code raises).
+the manual array, reset, apply (with or without `force`)}.  An `apply` while some feature has
+only one of min/max set raises `ValueError` – the history simply continues.  The only
+remaining guard (`ValidHist`) is that polygon filters in the settings have their axes in the
+dataset (otherwise the code raises a `KeyError` that is not modelled).
 
-The main theorems are about the code *after* `fix: …` (F03, `update true`); the diff rule
-before the fix is `update false` and `removed_range_witness` shows that it violates the
-property.  `failed_apply_witness` shows that the guard `ValidHist` cannot be dropped today
-(open finding F25: an `apply` that raises leaves recomputed box filters behind).
+The main theorems are about the current code (`Ver.f25`, after `fix-F03` and `fix-F25`);
+`removed_range_witness` (`Ver.orig`) and `failed_apply_witness` (`Ver.f03`) show that each of
+the two earlier revisions violates the property.
 -/
 namespace DclabModel.C03
 open DclabModel.Filter DclabModel.Down
@@ -26,33 +26,47 @@ open DclabModel.Filter DclabModel.Down
 variable (choice : List Nat → Nat → List Nat) (pip : Nat → Val → Val → Bool) (d : Data)
 
 /-- one operation: the invariant is kept, settings / registry / manual array evolve as in
-the specification run, and an `apply` produces `spec` of the current settings -/
+the specification run; an `apply` raises iff some feature has a half-set range (a stateless
+criterion) and then leaves `all` alone, otherwise it produces `spec` of the current settings -/
 theorem step_refines (hd : (d.cols.map (fun e => e.1)).Nodup) (s : Sys) (op : Op)
     (hinv : Inv pip d s.st)
     (hvalid : match op with
       | .apply _ => ValidAt d s
       | _ => True) :
-    Inv pip d (step true choice pip d s op).1.st ∧
-    (step true choice pip d s op).1.cfg = (cfgStep s.cfg s.reg s.st.manual op).1 ∧
-    (step true choice pip d s op).1.reg = (cfgStep s.cfg s.reg s.st.manual op).2.1 ∧
-    (step true choice pip d s op).1.st.manual = (cfgStep s.cfg s.reg s.st.manual op).2.2.1 ∧
+    Inv pip d (step .f25 choice pip d s op).1.st ∧
+    (step .f25 choice pip d s op).1.cfg = (cfgStep s.cfg s.reg s.st.manual op).1 ∧
+    (step .f25 choice pip d s op).1.reg = (cfgStep s.cfg s.reg s.st.manual op).2.1 ∧
+    (step .f25 choice pip d s op).1.st.manual = (cfgStep s.cfg s.reg s.st.manual op).2.2.1 ∧
     (∀ force, op = .apply force →
-      (step true choice pip d s op).1.st.aAll = spec choice pip d s.cfg s.reg s.st.manual ∧
-      (step true choice pip d s op).1.st.aBox = toList d.n (specBox d s.cfg) ∧
-      (step true choice pip d s op).1.st.aPoly = toList d.n (specPoly pip d s.cfg s.reg) ∧
-      (step true choice pip d s op).1.st.aInv = toList d.n (invalidMask d s.cfg.removeInvalid) ∧
-      (step true choice pip d s op).2 = .ok) := by
+      (anyHalf s.cfg.ranges = true →
+        (step .f25 choice pip d s op).2 = .errValue ∧
+        (step .f25 choice pip d s op).1.st.aAll = s.st.aAll) ∧
+      (anyHalf s.cfg.ranges = false →
+        (step .f25 choice pip d s op).2 = .ok ∧
+        (step .f25 choice pip d s op).1.st.aAll = spec choice pip d s.cfg s.reg s.st.manual ∧
+        (step .f25 choice pip d s op).1.st.aBox = toList d.n (specBox d s.cfg) ∧
+        (step .f25 choice pip d s op).1.st.aPoly = toList d.n (specPoly pip d s.cfg s.reg) ∧
+        (step .f25 choice pip d s op).1.st.aInv = toList d.n (invalidMask d s.cfg.removeInvalid))) := by
   have hkeep : ∀ m : Mask, Inv pip d { s.st with manual := m } :=
-    fun _ => ⟨hinv.box_ok, hinv.box_miss, hinv.poly_ok⟩
+    fun _ => ⟨hinv.box_ok, hinv.box_miss, hinv.poly_ok, hinv.old_ok⟩
   cases op with
   | apply force =>
-    obtain ⟨h1, h2, h3, h4, h5, h6, h7⟩ :=
-      update_ok choice pip d hd s.cfg s.reg force s.st hinv hvalid.1 hvalid.2
-    refine ⟨h2, rfl, rfl, h3, ?_⟩
-    intro f hf
-    injection hf with hf
-    subst hf
-    exact ⟨h4, h5, h6, h7, h1⟩
+    cases hh : anyHalf s.cfg.ranges with
+    | true =>
+      obtain ⟨h1, h2, h3, h4, _⟩ := update_err choice pip d s.cfg s.reg force s.st hinv hh hvalid
+      refine ⟨h2, rfl, rfl, h3, ?_⟩
+      intro f hf
+      injection hf with hf
+      subst hf
+      exact ⟨fun _ => ⟨h1, h4⟩, fun h => (by cases h)⟩
+    | false =>
+      obtain ⟨h1, h2, h3, h4, h5, h6, h7⟩ :=
+        update_ok choice pip d hd s.cfg s.reg force s.st hinv hh hvalid
+      refine ⟨h2, rfl, rfl, h3, ?_⟩
+      intro f hf
+      injection hf with hf
+      subst hf
+      exact ⟨fun h => (by cases h), fun _ => ⟨h1, h4, h5, h6, h7⟩⟩
   | reset => exact ⟨inv_init pip d d.n, rfl, rfl, rfl, fun f hf => by cases hf⟩
   | setKey f mx v => exact ⟨hkeep _, rfl, rfl, rfl, fun f hf => by cases hf⟩
   | popKey f mx => exact ⟨hkeep _, rfl, rfl, rfl, fun f hf => by cases hf⟩
@@ -65,12 +79,13 @@ theorem step_refines (hd : (d.cols.map (fun e => e.1)).Nodup) (s : Sys) (op : Op
   | manual i b => exact ⟨hkeep _, rfl, rfl, rfl, fun f hf => by cases hf⟩
 
 /-- **Refinement (headline theorem).** For every history, starting from any coherent state,
-the `all` array after each `apply` equals the stateless specification evaluated on the
-settings, polygon registry and manual array current at that `apply` – whatever was set,
-applied, changed, removed or cached before. -/
+every `apply` behaves as the stateless specification `specApply` of the settings, polygon
+registry and manual array current at that `apply`: it raises exactly when some feature has
+only one of min/max set, and otherwise `all` equals `spec` – whatever was set, applied,
+changed, removed, cached, or attempted and failed before. -/
 theorem update_refines_spec (hd : (d.cols.map (fun e => e.1)).Nodup) :
-    ∀ (ops : List Op) (s : Sys), Inv pip d s.st → ValidHist true choice pip d s ops →
-      runAll true choice pip d s ops = specAll choice pip d s.cfg s.reg s.st.manual ops := by
+    ∀ (ops : List Op) (s : Sys), Inv pip d s.st → ValidHist .f25 choice pip d s ops →
+      runAll .f25 choice pip d s ops = specAll choice pip d s.cfg s.reg s.st.manual ops := by
   intro ops
   induction ops with
   | nil => intro s _ _; rfl
@@ -82,8 +97,15 @@ theorem update_refines_spec (hd : (d.cols.map (fun e => e.1)).Nodup) :
     rw [hc, hr, hm] at hrec
     cases op with
     | apply force =>
-      simp only [runAll, specAll]
-      rw [(ha force rfl).1, hrec]
+      simp only [runAll, specAll, specApply]
+      rw [hrec]
+      cases hh : anyHalf s.cfg.ranges with
+      | true =>
+        rw [((ha force rfl).1 hh).1]
+        simp
+      | false =>
+        rw [((ha force rfl).2 hh).1, ((ha force rfl).2 hh).2.1]
+        simp
     | reset => simp only [runAll, specAll]; exact hrec
     | setKey f mx v => simp only [runAll, specAll]; exact hrec
     | popKey f mx => simp only [runAll, specAll]; exact hrec
@@ -97,15 +119,15 @@ theorem update_refines_spec (hd : (d.cols.map (fun e => e.1)).Nodup) :
 
 /-- the headline theorem for a freshly created dataset -/
 theorem history_all_eq_spec (hd : (d.cols.map (fun e => e.1)).Nodup) (ops : List Op)
-    (hv : ValidHist true choice pip d (Sys.init d.n) ops) :
-    runAll true choice pip d (Sys.init d.n) ops =
+    (hv : ValidHist .f25 choice pip d (Sys.init d.n) ops) :
+    runAll .f25 choice pip d (Sys.init d.n) ops =
       specAll choice pip d Cfg.default (Sys.init d.n).reg (fun _ => true) ops :=
   update_refines_spec choice pip d hd ops (Sys.init d.n) (inv_init pip d d.n) hv
 
-/-- the cache-coherence invariant holds after every valid history -/
+/-- the cache-coherence invariant holds after every history (raising applies included) -/
 theorem history_inv (hd : (d.cols.map (fun e => e.1)).Nodup) :
-    ∀ (ops : List Op) (s : Sys), Inv pip d s.st → ValidHist true choice pip d s ops →
-      Inv pip d (run true choice pip d s ops).st := by
+    ∀ (ops : List Op) (s : Sys), Inv pip d s.st → ValidHist .f25 choice pip d s ops →
+      Inv pip d (run .f25 choice pip d s ops).st := by
   intro ops
   induction ops with
   | nil => intro s h _; exact h
@@ -113,36 +135,53 @@ theorem history_inv (hd : (d.cols.map (fun e => e.1)).Nodup) :
     intro s hinv hv
     exact ih _ (step_refines choice pip d hd s op hinv hv.1).1 hv.2
 
-/-- **After any history**, an `apply` at acceptable settings yields `all`, `box`, `polygon`,
-`invalid` equal to their specification for the settings current at that moment. -/
+/-- **After any history** (with any number of failed applies in it), an `apply` at settings
+without half-set range succeeds and yields `all`, `box`, `polygon`, `invalid` equal to their
+specification for the settings current at that moment. -/
 theorem apply_after_history (hd : (d.cols.map (fun e => e.1)).Nodup) (ops : List Op)
-    (hv : ValidHist true choice pip d (Sys.init d.n) ops) (force : List Feat)
-    (hva : ValidAt d (run true choice pip d (Sys.init d.n) ops)) :
-    let s := run true choice pip d (Sys.init d.n) ops
-    let s' := (step true choice pip d s (.apply force)).1
-    s'.st.aAll = spec choice pip d s.cfg s.reg s.st.manual ∧
-    s'.st.aBox = toList d.n (specBox d s.cfg) ∧
-    s'.st.aPoly = toList d.n (specPoly pip d s.cfg s.reg) ∧
-    s'.st.aInv = toList d.n (invalidMask d s.cfg.removeInvalid) := by
-  intro s s'
+    (hv : ValidHist .f25 choice pip d (Sys.init d.n) ops) (force : List Feat)
+    (hva : ValidAt d (run .f25 choice pip d (Sys.init d.n) ops))
+    (hh : anyHalf (run .f25 choice pip d (Sys.init d.n) ops).cfg.ranges = false) :
+    let s := run .f25 choice pip d (Sys.init d.n) ops
+    let r := step .f25 choice pip d s (.apply force)
+    r.2 = .ok ∧
+    r.1.st.aAll = spec choice pip d s.cfg s.reg s.st.manual ∧
+    r.1.st.aBox = toList d.n (specBox d s.cfg) ∧
+    r.1.st.aPoly = toList d.n (specPoly pip d s.cfg s.reg) ∧
+    r.1.st.aInv = toList d.n (invalidMask d s.cfg.removeInvalid) := by
+  intro s r
   have hinv := history_inv choice pip d hd ops (Sys.init d.n) (inv_init pip d d.n) hv
-  obtain ⟨h1, h2, h3, h4, _⟩ := (step_refines choice pip d hd s (.apply force) hinv hva).2.2.2.2 force rfl
-  exact ⟨h1, h2, h3, h4⟩
+  exact ((step_refines choice pip d hd s (.apply force) hinv hva).2.2.2.2 force rfl).2 hh
+
+/-- **A failed apply is harmless.** After any history, an `apply` at settings with a half-set
+range raises `ValueError`, keeps the invariant and leaves `all` as it was. -/
+theorem failed_apply_keeps_state (hd : (d.cols.map (fun e => e.1)).Nodup) (ops : List Op)
+    (hv : ValidHist .f25 choice pip d (Sys.init d.n) ops) (force : List Feat)
+    (hva : ValidAt d (run .f25 choice pip d (Sys.init d.n) ops))
+    (hh : anyHalf (run .f25 choice pip d (Sys.init d.n) ops).cfg.ranges = true) :
+    let s := run .f25 choice pip d (Sys.init d.n) ops
+    let r := step .f25 choice pip d s (.apply force)
+    r.2 = .errValue ∧ r.1.st.aAll = s.st.aAll ∧ Inv pip d r.1.st := by
+  intro s r
+  have hinv := history_inv choice pip d hd ops (Sys.init d.n) (inv_init pip d d.n) hv
+  have h := step_refines choice pip d hd s (.apply force) hinv hva
+  exact ⟨((h.2.2.2.2 force rfl).1 hh).1, ((h.2.2.2.2 force rfl).1 hh).2, h.1⟩
 
 /-- **History independence.** Two histories that end in the same settings, registry and
 manual array give the same `all`, whatever happened before and whatever is forced. -/
 theorem history_independent (hd : (d.cols.map (fun e => e.1)).Nodup) (ops1 ops2 : List Op)
-    (hv1 : ValidHist true choice pip d (Sys.init d.n) ops1)
-    (hv2 : ValidHist true choice pip d (Sys.init d.n) ops2) (f1 f2 : List Feat)
-    (ha1 : ValidAt d (run true choice pip d (Sys.init d.n) ops1))
-    (ha2 : ValidAt d (run true choice pip d (Sys.init d.n) ops2))
-    (hc : (run true choice pip d (Sys.init d.n) ops1).cfg = (run true choice pip d (Sys.init d.n) ops2).cfg)
-    (hr : (run true choice pip d (Sys.init d.n) ops1).reg = (run true choice pip d (Sys.init d.n) ops2).reg)
-    (hm : (run true choice pip d (Sys.init d.n) ops1).st.manual = (run true choice pip d (Sys.init d.n) ops2).st.manual) :
-    (step true choice pip d (run true choice pip d (Sys.init d.n) ops1) (.apply f1)).1.st.aAll =
-    (step true choice pip d (run true choice pip d (Sys.init d.n) ops2) (.apply f2)).1.st.aAll := by
-  rw [(apply_after_history choice pip d hd ops1 hv1 f1 ha1).1,
-      (apply_after_history choice pip d hd ops2 hv2 f2 ha2).1, hc, hr, hm]
+    (hv1 : ValidHist .f25 choice pip d (Sys.init d.n) ops1)
+    (hv2 : ValidHist .f25 choice pip d (Sys.init d.n) ops2) (f1 f2 : List Feat)
+    (ha1 : ValidAt d (run .f25 choice pip d (Sys.init d.n) ops1))
+    (ha2 : ValidAt d (run .f25 choice pip d (Sys.init d.n) ops2))
+    (hh : anyHalf (run .f25 choice pip d (Sys.init d.n) ops1).cfg.ranges = false)
+    (hc : (run .f25 choice pip d (Sys.init d.n) ops1).cfg = (run .f25 choice pip d (Sys.init d.n) ops2).cfg)
+    (hr : (run .f25 choice pip d (Sys.init d.n) ops1).reg = (run .f25 choice pip d (Sys.init d.n) ops2).reg)
+    (hm : (run .f25 choice pip d (Sys.init d.n) ops1).st.manual = (run .f25 choice pip d (Sys.init d.n) ops2).st.manual) :
+    (step .f25 choice pip d (run .f25 choice pip d (Sys.init d.n) ops1) (.apply f1)).1.st.aAll =
+    (step .f25 choice pip d (run .f25 choice pip d (Sys.init d.n) ops2) (.apply f2)).1.st.aAll := by
+  rw [(apply_after_history choice pip d hd ops1 hv1 f1 ha1 hh).2.1,
+      (apply_after_history choice pip d hd ops2 hv2 f2 ha2 (by rw [← hc]; exact hh)).2.1, hc, hr, hm]
 
 /-! ## what `spec` says (the clauses named by the property) -/
 
@@ -276,63 +315,63 @@ def wF03 : List Op :=
   [.setKey 0 false (.fin 1), .setKey 0 true (.fin 2), .apply [],
    .popKey 0 false, .popKey 0 true, .apply []]
 
-/-- With the diff rule *before* the fix the removed range keeps filtering: the second `all`
+/-- With the diff rule *before* `fix-F03` the removed range keeps filtering: the second `all`
 is `[F,T,F]` although the current settings select everything.  The property is violated. -/
 theorem removed_range_witness :
-    runAll false wChoice wPip wData (Sys.init 3) wF03 = [[false, true, false], [false, true, false]] ∧
+    runAll .orig wChoice wPip wData (Sys.init 3) wF03
+      = [some [false, true, false], some [false, true, false]] ∧
     specAll wChoice wPip wData Cfg.default (Sys.init 3).reg (fun _ => true) wF03
-      = [[false, true, false], [true, true, true]] := by
+      = [some [false, true, false], some [true, true, true]] := by
   constructor <;> decide +kernel
 
 /-- the fixed diff rule gives the specification on the same history -/
 theorem removed_range_fixed :
-    runAll true wChoice wPip wData (Sys.init 3) wF03 = [[false, true, false], [true, true, true]] := by
+    runAll .f25 wChoice wPip wData (Sys.init 3) wF03
+      = [some [false, true, false], some [true, true, true]] := by
   decide +kernel
 
-/-- **F25 (open).** History: range 1..2 on feature 0, apply; change it to 3..4 *and* set only
-`1 min`, apply (raises `ValueError` after feature 0 has been recomputed); restore 1..2,
-remove `1 min`, apply. -/
+/-- **F25.** History: range 1..2 on feature 0, apply; change it to 3..4 *and* set only
+`1 min`, apply (raises `ValueError`); restore 1..2, remove `1 min`, apply. -/
 def wF25 : List Op :=
   [.setKey 0 false (.fin 1), .setKey 0 true (.fin 2), .apply [],
    .setKey 0 false (.fin 3), .setKey 0 true (.fin 4), .setKey 1 false (.fin 0), .apply [],
    .setKey 0 false (.fin 1), .setKey 0 true (.fin 2), .popKey 1 false, .apply []]
 
-/-- Even with the F03 fix, a failed `apply` leaves a recomputed box filter behind: the last
-`all` is `[F,F,T]` (range 3..4) although the settings say 1..2 (`[F,T,F]`).  Hence the guard
-`ValidHist` of `update_refines_spec` cannot be dropped. -/
+/-- Before `fix-F25` (F03 already fixed) the failed `apply` had recomputed the box filter of
+feature 0 before raising: the last `all` is `[F,F,T]` (range 3..4) although the settings say
+1..2 (`[F,T,F]`).  The property is violated. -/
 theorem failed_apply_witness :
-    runAll true wChoice wPip wData (Sys.init 3) wF25
-      = [[false, true, false], [false, true, false], [false, false, true]] ∧
+    runAll .f03 wChoice wPip wData (Sys.init 3) wF25
+      = [some [false, true, false], none, some [false, false, true]] ∧
     specAll wChoice wPip wData Cfg.default (Sys.init 3).reg (fun _ => true) wF25
-      = [[false, true, false], [false, false, true], [false, true, false]] := by
+      = [some [false, true, false], none, some [false, true, false]] := by
   constructor <;> decide +kernel
+
+/-- the current code gives the specification on the same history -/
+theorem failed_apply_fixed :
+    runAll .f25 wChoice wPip wData (Sys.init 3) wF25
+      = [some [false, true, false], none, some [false, true, false]] := by
+  decide +kernel
 
 /-! ## Non-vacuity -/
 
 theorem wData_nodup : (wData.cols.map (fun e => e.1)).Nodup := by decide
 
-/-- the F03 history satisfies the hypotheses of the headline theorem -/
-theorem wF03_valid : ValidHist true wChoice wPip wData (Sys.init 3) wF03 := by
-  have hs : ∀ (r : Ranges), (∀ f, halfSet r f = false) → ∀ s : Sys, s.cfg.ranges = r →
-      s.cfg.polys = [] → ValidAt wData s := by
-    intro r hr s h1 h2
-    exact ⟨by rw [h1]; exact hr, by rw [h2]; rfl⟩
-  refine ⟨trivial, trivial, ?_, trivial, trivial, ?_, trivial⟩
-  · apply hs [((0, true), .fin 2), ((0, false), .fin 1)] _ _ (by decide +kernel) (by decide +kernel)
-    intro f
-    by_cases hf : f = 0
-    · subst hf; decide +kernel
-    · have hf' : ¬ 0 = f := fun h => hf h.symm
-      simp [halfSet, getR, hf']
-  · apply hs [] _ _ (by decide +kernel) (by decide +kernel)
-    intro f
-    simp [halfSet, getR]
+/-- the F25 history (with its raising apply) satisfies the hypotheses of the headline theorem -/
+theorem wF25_valid : ValidHist .f25 wChoice wPip wData (Sys.init 3) wF25 := by
+  refine ⟨trivial, trivial, ?_, trivial, trivial, trivial, ?_, trivial, trivial, trivial, ?_, trivial⟩ <;>
+    (unfold ValidAt; decide +kernel)
+
+/-- … and the raising apply really is in it -/
+example : anyHalf (run .f25 wChoice wPip wData (Sys.init 3) (wF25.take 6)).cfg.ranges = true := by
+  decide +kernel
 
 /-- a history with a polygon filter, a limit, a manual exclusion and a reset -/
-example : runAll true wChoice (fun s x y => s == 7 && vle (.fin 1) x && vle y (.fin 6)) wData (Sys.init 3)
+example : runAll .f25 wChoice (fun s x y => s == 7 && vle (.fin 1) x && vle y (.fin 6)) wData (Sys.init 3)
     [.polySet 1 ⟨0, 1, 7, false⟩, .polyAdd 1, .apply [], .polySet 1 ⟨0, 1, 7, true⟩, .apply [],
      .polyRm 1, .manual 0 false, .setLimit 1, .apply [], .reset, .apply []]
-    = [[false, true, false], [true, false, true], [false, true, false], [true, true, true]] := by
+    = [some [false, true, false], some [true, false, true], some [false, true, false],
+       some [true, true, true]] := by
   decide +kernel
 
 end DclabModel.C03
